@@ -56,8 +56,10 @@ class Lock:
 
 
 def run(cmd, cwd=None, env=None, timeout=None, input=None):
-    p = subprocess.run(cmd, cwd=cwd, env=env, timeout=timeout, input=input,
-                       stdout=subprocess.PIPE, stderr=subprocess.STDOUT, text=True)
+    # never let a child inherit our stdin (cargo runs `rustc -`, which compiles whatever arrives there)
+    kw = {"input": input} if input is not None else {"stdin": subprocess.DEVNULL}
+    p = subprocess.run(cmd, cwd=cwd, env=env, timeout=timeout,
+                       stdout=subprocess.PIPE, stderr=subprocess.STDOUT, text=True, **kw)
     return p.returncode, p.stdout
 
 
@@ -126,6 +128,29 @@ def build_helper():
 
 class BuildError(Exception):
     pass
+
+
+def ensure_dev_null():
+    """The sandbox runs everything as root and /dev is an ordinary tmpfs: a process that renames a file
+    over /dev/null (or unlinks it) turns it into a regular file that then collects what everybody
+    discards — and `rustc -`, git (GIT_CONFIG_*=/dev/null) and every `stdin=DEVNULL` child start reading
+    it.  Seen once during a long session; repaired here so that a check never judges the code under
+    such an environment."""
+    import stat
+    try:
+        st = os.stat("/dev/null")
+        if stat.S_ISCHR(st.st_mode):
+            return
+    except FileNotFoundError:
+        pass
+    try:
+        if os.path.lexists("/dev/null"):
+            os.remove("/dev/null")
+        os.mknod("/dev/null", 0o666 | stat.S_IFCHR, os.makedev(1, 3))
+        os.chmod("/dev/null", 0o666)
+        sys.stderr.write("vlib: /dev/null was not a character device; recreated\n")
+    except OSError as e:
+        raise BuildError("/dev/null is not a character device and cannot be repaired: %s" % e)
 
 
 def lake_build(targets):
@@ -365,6 +390,7 @@ class Ctx:
         self.replay = replay
         self.rng = random.Random(seed)
         self.t0 = time.time()
+        ensure_dev_null()
         self.evaluations = 0
         self.distinct = set()
         self.samples = []
